@@ -8,7 +8,15 @@ Parts:
   wrap     NiftiWrapper level (oracle only; the image-level model belongs to another property): make_empty=True
            wrapping, split, NiftiWrapper.from_sequence of the pieces: extension valid, ext.shape == img.shape,
            slice dim equal, affine allclose (3x3 part only after a split).
-  degen    the region of the open finding N10 (inject into a varying class of multiplicity one), oracle only."""
+  degen    the region of the open finding N10 (inject into a varying class of multiplicity one), oracle only.
+  conv     stack conversion: DicomStack.to_nifti(order, embed_meta=True) / to_nifti_wrapper(order) on synthetic series
+           (axial / sagittal / coronal / oblique x all six output axis orders, cyclic permutations included, and '');
+           the embedded extension is valid, agrees with the image (shape, affine) and its slice dim is the header's AND
+           the axis along which the source slices really are stacked (files located by their pixel values); the per-file
+           extensions stay valid.  Coq: Conv/CorrMeta.v check (the conversion model of C01), theorem C07_conversion_valid.
+  reuse    converted volumes split along time / vector / slice, merged, merged again from the same pieces; after EVERY
+           step EVERY wrapper produced so far is validated again.  Oracle only.
+In `ops` too, every extension produced so far (start, partners, earlier results) is re-validated after every step."""
 import os, copy, json
 from fractions import Fraction
 from vlib.coqlit import cnat, cbool, clist, copt, cpair, cstr, cjv
@@ -50,7 +58,11 @@ ASSUMPTIONS = [
     'T values where T*V are required in 5-D with V > 1 (simplify_k_valid carries the hypothesis simp_dom)',
     'values: Python == coincides with structural equality (one value kind per key in a case; never 1 / 1.0 / True mixed)',
     'key order of results is not modelled (compared as unordered maps; C13_key_order_* shows the model does not depend on it)',
-    'a history stops at the first operation that raises / is refused (Ops.run); inject refusals (return code 1) are Err EValue']
+    'a history stops at the first operation that raises / is refused (Ops.run); inject refusals (return code 1) are Err EValue',
+    'stack conversion: C07_conversion_valid is the validity half of C01_lossless with its hypotheses (well-formed stack, files '
+    'covered, slice normals pairwise np.allclose: open finding N9); permutation and output affine are read from the '
+    'implementation as in C01; that an object produced EARLIER stays valid when later operations run is a heap property, '
+    'checked at run time only (ops / conv / reuse re-validate everything after every step)']
 
 KEYS = ['EchoTime', 'SliceLocation', 'k', 'AcquisitionTime', 'CsaImage.B_value', 'ImageType', 'a b', 'Zü', 'x0', 'x1']
 KIND_OF = {'EchoTime': 'float', 'SliceLocation': 'int', 'k': 'str', 'AcquisitionTime': 'str', 'CsaImage.B_value': 'int',
